@@ -33,7 +33,7 @@ BANNED_VALUES = {'twopl': True, 'n2': 3, 'n3': 2, 't2': 0.5, 'uq': 9, 'lq': 0, '
 
 
 def budget(tier):
-    return 2500 if tier == 'quick' else 40000
+    return 2500 if tier == 'quick' else 100000
 
 
 @st.composite
